@@ -58,27 +58,12 @@ pub fn resolve_range(r: Rg, len: usize) -> Option<(usize, usize)> {
     }
 }
 
-/// Apply a two-ended consumption script to positions a..b; returns yielded positions.
+/// Apply a consumption script to positions a..b; returns yielded positions per step and the
+/// window that is left.
 pub fn run_script(a: usize, b: usize, script: &[Step]) -> (Vec<Option<usize>>, usize, usize) {
-    let (mut lo, mut hi) = (a, b);
-    let mut out = Vec::with_capacity(script.len());
-    for s in script {
-        if lo >= hi {
-            out.push(None);
-            continue;
-        }
-        match s {
-            Step::F => {
-                out.push(Some(lo));
-                lo += 1;
-            }
-            Step::B => {
-                hi -= 1;
-                out.push(Some(hi));
-            }
-        }
-    }
-    (out, lo, hi)
+    let mut w = Win { lo: a, hi: b };
+    let out = script.iter().map(|s| w.step(*s)).collect();
+    (out, w.lo, w.hi)
 }
 
 fn ids(v: &[(u64, u32)]) -> Vec<Item> {
